@@ -52,6 +52,7 @@ def jobs(tier, seed):
     for ch in C.chunks(syms, 16):
         out.append({'fn': 'round_trip', 'cfg': {'units': ch}})
     out.append({'fn': 'round_trip_user', 'cfg': {}})
+    out.append({'fn': 'format_sequence', 'cfg': {}})
     out.append({'fn': 'concrete_numbers', 'cfg': {}})
     out.append({'fn': 'wrong_unit', 'cfg': {}})
     out.append({'fn': 'malformed_concrete', 'cfg': {}})
@@ -122,8 +123,13 @@ def concrete_numbers(E, cfg):
             ('f-2**-70', 2.0 ** -70), ('f-0.1', 0.1), ('f-1e22', 1e22), ('f-1e20', 1e20), ('f-1/3', 1 / 3),
             ('f-big-odd', 123456789012345678.0), ('std-2.675', decimal.Decimal('2.675')), ('std-1e-30', decimal.Decimal('1E-30')),
             ('std-1e30', decimal.Decimal('1E+30')), ('std-neg', decimal.Decimal('-0.000')), ('bool', True),
-            ('int-big', 10 ** 40 + 1), ('int-neg', -7)]
+            ('int-big', 10 ** 40 + 1), ('int-neg', -7),
+            ('std-40digits', decimal.Decimal('3.1415926535897932384626433832795028841971')),
+            ('std-trailing-zeros', decimal.Decimal('9283.100060000')), ('std-35int', decimal.Decimal('12345678901234567890123456789012345'))]
     name, v = E.choice('val', vals)
+    if name.startswith('std') and E.choice('low-context-precision', [False, True]):
+        # the application may have lowered the precision of the stdlib decimal context: conversion stays exact
+        decimal.getcontext().prec = 6
     u = E.choice('unit', [pre.METRE, pre.POUND, pre.KELVIN])
     exact = Fraction(v) if not isinstance(v, decimal.Decimal) else Fraction(str(v)) if False else Fraction(*v.as_integer_ratio())
     q = Quantity(v, u)
@@ -192,6 +198,39 @@ def round_trip(E, cfg):
                         key='text:explicit-unit-value', info=[us, v.symbol])
                 E.check(r.amount == q.amount * C.scale(u) / C.scale(v), 'explicit-unit-%s-scale' % label,
                         key='text:explicit-unit-scale', info=[us, v.symbol])
+
+
+def format_sequence(E, cfg):
+    """str / format of several quantities one after the other: each text belongs to the quantity it was asked for,
+    also when an equal quantity (other unit, other digits) was formatted before"""
+    from decimalfp import Decimal
+    from quantity import Quantity
+    import quantity.predefined as pre
+    x = E.rational('x', 'dec')
+    case = E.choice('case', ['zero-two-units', 'equal-across-units', 'equal-scale-units', 'same-unit-other-digits',
+                             'symbolic-equal-across-units'])
+    if case == 'zero-two-units':
+        qs = [Quantity(0, pre.METRE), Quantity(0, pre.KILOMETRE), Quantity(Decimal('0.00'), pre.MILLIMETRE)]
+    elif case == 'equal-across-units':
+        qs = [Quantity(1000, pre.METRE), Quantity(1, pre.KILOMETRE), Quantity(Decimal('100000'), pre.CENTIMETRE)]
+    elif case == 'equal-scale-units':
+        qs = [Quantity(Decimal('2.5'), pre.LITRE), Quantity(Decimal('2.5'), pre.CUBIC_DECIMETRE), Quantity(3, pre.JOULE),
+              Quantity(3, pre.NEWTON_METRE)]
+    elif case == 'same-unit-other-digits':
+        qs = [Quantity(Decimal('2.5'), pre.KILOGRAM), Quantity(Decimal('2.50'), pre.KILOGRAM), Quantity(Fraction(5, 2), pre.KILOGRAM)]
+    else:
+        qs = [Quantity(x, pre.KILOMETRE), Quantity(x * 1000, pre.METRE), Quantity(x, pre.KILOMETRE)]
+    spec = E.choice('spec', ['', '{a} {u}', '{u} {a}'])
+    for i, q in enumerate(qs + list(reversed(qs))):
+        s = str(q)
+        E.check(s == '%s %s' % (q.amount, q.unit.symbol), 'str-is-amount-blank-symbol', key='format-seq:str', info=[case, i])
+        if spec == '':
+            E.check(format(q) == s and '{}'.format(q) == s, 'format-without-spec-equals-str', key='format-seq:format', info=[case, i])
+        else:
+            exp = spec.replace('{a}', str(q.amount)).replace('{u}', q.unit.symbol)
+            E.check(format(q, spec) == exp, 'format-with-spec', key='format-seq:format-spec', info=[case, i, spec])
+        r = Quantity(s)
+        E.check(r.unit is q.unit and r.amount == q.amount, 'round-trip-in-sequence', key='format-seq:round-trip', info=[case, i])
 
 
 def round_trip_user(E, cfg):
